@@ -1051,7 +1051,7 @@ func generatedNote(p *Loaded) string {
 	if n == 0 {
 		return ""
 	}
-	return fmt.Sprintf("%d round-trip lemmas generated on this run from the type declarations of nasType / nasMessage of the tree under verification (cmd/govc/nasgen.go); accessor sweep: %d bit-field accessor pairs under a generated lemma, %d accessors outside it (fields spanning octets, arrays, lengths)", n, nasAccCovered, nasAccSkipped)
+	return fmt.Sprintf("%d round-trip lemmas generated on this run from the type declarations of nasType / nasMessage of the tree under verification (cmd/govc/nasgen.go); accessor sweep: %d accessor pairs under a generated lemma (bit fields inside an octet, uint16 fields spanning octets, whole-octet arrays), %d accessors outside it (annotation not of these shapes, or no getter/setter pair)", n, nasAccCovered, nasAccSkipped)
 }
 
 // msgTypeObligations: the MsgType constants of package nas and the <Message><IE>Type constants of
